@@ -102,19 +102,29 @@ func (w *progWalker) recordLit(cl *ast.CompositeLit) string {
 	return t
 }
 
+// isErrReturn: the block ends by returning a non-nil error (statements before the return may
+// only build that error); the text is the first string literal in the block, else the returned
+// expression.
 func isErrReturn(w *progWalker, body []ast.Stmt) (string, bool) {
-	if len(body) != 1 {
+	if len(body) == 0 {
 		return "", false
 	}
-	rs, ok := body[0].(*ast.ReturnStmt)
+	rs, ok := body[len(body)-1].(*ast.ReturnStmt)
 	if !ok || len(rs.Results) != 2 {
 		return "", false
 	}
 	if id, ok := rs.Results[1].(*ast.Ident); ok && id.Name == "nil" {
 		return "", false
 	}
-	if s := firstString(rs.Results[1]); s != "" {
-		return s, true
+	for _, st := range body[:len(body)-1] {
+		if _, ok := st.(*ast.AssignStmt); !ok {
+			return "", false
+		}
+	}
+	for _, st := range body {
+		if s := firstString(st); s != "" {
+			return s, true
+		}
 	}
 	return w.src(rs.Results[1]), true
 }
@@ -189,6 +199,13 @@ func (w *progWalker) walk(list []ast.Stmt) {
 		case *ast.SwitchStmt:
 			for _, c := range x.Body.List {
 				cc := c.(*ast.CaseClause)
+				if x.Tag != nil && len(cc.List) > 0 {
+					var vs []string
+					for _, e := range cc.List {
+						vs = append(vs, w.src(e))
+					}
+					w.add("switch", w.src(x.Tag), vs, "")
+				}
 				w.walk(cc.Body)
 			}
 		case *ast.TypeSwitchStmt:
@@ -208,7 +225,12 @@ func (w *progWalker) walk(list []ast.Stmt) {
 		case *ast.BlockStmt:
 			w.walk(x.List)
 		case *ast.LabeledStmt:
+			w.add("label", x.Label.Name, nil, "")
 			w.walk([]ast.Stmt{x.Stmt})
+		case *ast.BranchStmt:
+			if x.Tok == token.GOTO && x.Label != nil {
+				w.add("goto", x.Label.Name, nil, "")
+			}
 		case *ast.ReturnStmt:
 			if len(x.Results) == 2 {
 				if id, ok := x.Results[1].(*ast.Ident); ok && id.Name == "nil" {
